@@ -131,7 +131,14 @@ class Probe(BaseComponent):
 
     @handler('disconnect')
     def _disc(self, sock=None, *a):
-        self.seen.append(['disconnect', self.sid(sock), []])
+        if self.sid(sock) == -1:
+            self.seen.append(['lisdown', 0, []])      # disconnect(listening socket)
+        else:
+            self.seen.append(['disconnect', self.sid(sock), []])
+
+    @handler('closed')
+    def _closed(self, *a):
+        self.seen.append(['closed', 0, []])
 
     @handler('error')
     def _err(self, sock=None, *a):
@@ -211,7 +218,25 @@ class ServerRun:
                 sorted(sid(k) for k in p._read if isinstance(k, socket.socket) and k is not self.ls),
                 sorted(sid(k) for k in p._write if isinstance(k, socket.socket)),
                 sorted(sid(k) for k in p._targets if isinstance(k, socket.socket) and k is not self.ls),
-                mp]
+                mp, self.listen_tables()]
+
+    def listen_tables(self):
+        """numbers of the tables that (still) hold the listening socket"""
+        s, p, ls = self.server, self.poller, self.ls
+        out = []
+        if ls in s._buffers:
+            out.append(1)
+        if ls in s._closeq:
+            out.append(3)
+        if ls in p._read:
+            out.append(4)
+        if ls in p._write:
+            out.append(5)
+        if ls in p._targets:
+            out.append(6)
+        if any(v is ls for v in getattr(p, '_map', {}).values()):
+            out.append(7)
+        return out
 
     def settle(self, final=False):
         """zero-timeout ticks until three consecutive ticks change neither the tables nor the observer's view.
@@ -252,7 +277,11 @@ class ServerRun:
                 return False
             fam = socket.AF_UNIX if self.family == 'unix' else socket.AF_INET
             ps = socket.socket(fam, socket.SOCK_STREAM)
-            ps.connect(self.addr)
+            try:
+                ps.connect(self.addr)
+            except OSError:           # the server closed its listening socket
+                ps.close()
+                return False
             ps.setblocking(False)
             self.peers[c] = ps
             self.order.append(c)
@@ -294,6 +323,9 @@ class ServerRun:
                 self.m.fire(write_ev(sock, b'w' * op[2]), 'server')
             else:
                 self.m.fire(close_ev(sock), 'server')
+            return True
+        if k == 'closeall':
+            self.m.fire(close_ev(), 'server')
             return True
         if k == 'tick':
             return True
@@ -338,7 +370,8 @@ def run_server_case(case):
         r.finish()
         return {'log': canon_log(r.log), 'seen': r.probe.seen, 'applied': applied,
                 'order': r.order, 'sent': [r.sent.get(c, 0) for c in r.order],
-                'naccepted': len(r.ls.made)}
+                'naccepted': len(r.ls.made), 'sock_none': r.server._sock is None,
+                'ls_closed': r.ls.fileno() < 0}
     finally:
         r.dispose()
 
@@ -392,7 +425,7 @@ def stimuli(log):
             elif name == 'write':
                 st.append(['write', s, e[3]])
             elif name == 'close':
-                st.append(['close', s, 0])
+                st.append(['closeall', 0, 0] if s == -2 else ['close', s, 0])
         elif e[0] == 'accept':
             gone = j < n and log[j][0] == 'peername_err' and log[j][1] == e[1]
             st.append(['acceptgone' if gone else 'accept', e[1], 0])
@@ -493,7 +526,15 @@ def run_client_case(case):
                 a.setsockopt(socket.SOL_SOCKET, socket.SO_RCVBUF, 2048)
                 peers.append(a)
         settle()
-        applied, sent, bad_connect = [], 0, False
+        applied, sent, bad_connect, snaps = [], 0, False, []
+
+        def dead_in_poller():
+            objs = list(poller._read) + list(poller._write) + list(poller._targets) + list(getattr(poller, '_map', {}).values())
+            return sum(1 for o in objs if isinstance(o, socket.socket) and o.fileno() < 0)
+
+        def csnap():
+            snaps.append([bool(cl._connected), len(cl._buffer), bool(cl._closeflag), cl._sock.fileno() >= 0,
+                          dead_in_poller()])
         for idx, op in enumerate(case['ops']):
             log.append(('op', idx, len(probe.seen)))
             k = op[0]
@@ -506,11 +547,8 @@ def run_client_case(case):
                     m.fire(connect_ev(addr), 'client')
                 else:
                     m.fire(connect_ev(addr[0], addr[1]), 'client')
-            elif k == 'write':
-                if cl._connected:
-                    m.fire(write_ev(b'w' * op[1]), 'client')
-                else:
-                    ok = False
+            elif k == 'write':          # also after the disconnect (late write)
+                m.fire(write_ev(b'w' * op[1]), 'client')
             elif k == 'close':
                 m.fire(close_ev(), 'client')
             elif peer is None:
@@ -541,12 +579,18 @@ def run_client_case(case):
             applied.append(1 if ok else 0)
             if ok:
                 settle()
+                if k == 'connect':
+                    log.append(('connect_result', cl._sock.fileno() >= 0))
+                csnap()
         log.append(('op', len(case['ops']), len(probe.seen)))
         for a in peers:
             a.close()
         settle()
+        csnap()
         return {'log': canon_log(log), 'seen': probe.seen, 'applied': applied, 'bad_connect': bad_connect,
-                'final': [bool(cl._connected), [len(x) for x in cl._buffer], bool(cl._closeflag)]}
+                'snaps': snaps, 'sends': [e[2] for e in log if e[0] == 'send'],
+                'final': [bool(cl._connected), [len(x) for x in cl._buffer], bool(cl._closeflag),
+                          cl._sock.fileno() >= 0]}
     finally:
         S.socket = saved
         m._running = False
@@ -589,7 +633,8 @@ def client_stimuli(log, seen):
                 lo = ops[cur_op][2]
                 hi = ops[cur_op + 1][2] if cur_op + 1 < len(ops) else len(seen)
                 ok = any(x == [0] for x in seen[lo:hi])
-                st.append(['connect', 1 if ok else 0, 0])
+                res = [x for x in log[j:] if x[0] == 'connect_result']
+                st.append(['connect', 1 if ok else 0, 1 if (res and res[0][1]) else 0])
             elif name == '_read':
                 rc = [x for x in sub if x[0] == 'recv']
                 r = rc[0][2] if rc else 'would'
@@ -638,6 +683,8 @@ def stim_term(x):
     k, s, a = x
     if k == 'snap':
         return 'SSnap'
+    if k == 'closeall':
+        return 'SCloseAll'
     sn = natlit(s) if s >= 0 else natlit(1000 - s)      # unknown objects: numbers the model has never seen
     if k == 'accept':
         return 'SAccept %s' % sn
@@ -661,7 +708,7 @@ def stim_term(x):
 def cstim_term(x):
     k, a, f = x
     if k == 'connect':
-        return 'KConnect %s' % ('true' if a else 'false')
+        return 'KConnect %s %s' % ('true' if a else 'false', 'true' if f else 'false')
     if k == 'read':
         return 'KRead %s' % rres_term(a)
     if k == 'writable':
@@ -677,10 +724,11 @@ def cstim_term(x):
     raise ValueError(k)
 
 
-EVK = {'connect': 0, 'read': 1, 'error': 2, 'disconnect': 3}
+EVK = {'connect': 0, 'read': 1, 'error': 2, 'disconnect': 3, 'lisdown': 5, 'closed': 6}
 
 ENDINGS = (['pclose'], ['shutwr'], ['preset'], ['close'], ['write20k', 'close', 'pclose'], ['write20k', 'close', 'preset'],
-           ['write20k', 'pclose'], ['write20k', 'shutwr', 'pdrain'], ['send', 'close'], ['write20k', 'close', 'pdrain'])
+           ['write20k', 'pclose'], ['write20k', 'shutwr', 'pdrain'], ['send', 'close'], ['write20k', 'close', 'pdrain'],
+           ['closeall'], ['write20k', 'closeall', 'pdrain'], ['write20k', 'closeall', 'preset'], ['closeall', 'closeall'])
 LATES = (['write'], ['close'], ['write', 'close'], ['close', 'write', 'tick'], ['write', 'write', 'close', 'close'])
 
 
@@ -699,8 +747,8 @@ def directed(kinds=KINDS):
                             ops.append(['write', 0, 5])
                         elif x == 'send':
                             ops.append(['send', 0, 10])
-                        elif x == 'tick':
-                            ops.append(['tick'])
+                        elif x in ('tick', 'closeall'):
+                            ops.append([x])
                         else:
                             ops.append([x, 0])
                     ops.append(['send', 1, 4])
@@ -739,12 +787,12 @@ class C12(Prop):
         d = directed()
         if tier == 'quick':
             # a deterministic third of the directed scenarios, rotating with the seed-derived offset
-            off = rng.randrange(3)
-            d = [c for i, c in enumerate(d) if i % 3 == off]
+            off = rng.randrange(4)
+            d = [c for i, c in enumerate(d) if i % 4 == off]
         cases += d
         nrand = max(0, n - len(cases))
         for i in range(nrand):
-            if rng.random() < 0.22:
+            if rng.random() < 0.35:
                 cases.append(self.gen_client(rng))
             else:
                 cases.append(self.gen_server(rng, tier))
@@ -778,11 +826,13 @@ class C12(Prop):
                 op = ['pclose', c]
             elif r < 0.83:
                 op = ['preset', c]
-            elif r < 0.93:
+            elif r < 0.92:
                 op = ['pdrain', c]
+            elif r < 0.96:
+                op = ['closeall']
             else:
                 op = ['tick']
-            if op[0] in ('send', 'write', 'close', 'shutwr', 'pdrain') and rng.random() < 0.2:
+            if op[0] in ('send', 'write', 'close', 'shutwr', 'pdrain', 'closeall') and rng.random() < 0.2:
                 op.append('nosettle')
             ops.append(op)
         return {'k': 'server', 'poller': kind, 'family': fam, 'ops': ops}
@@ -809,6 +859,11 @@ class C12(Prop):
                 ops.append(['preset'])
             else:
                 ops.append(['pdrain'])
+        if rng.random() < 0.5:      # late requests after the connection has ended, then (TCP) a new connection
+            ops += [rng.choice([['pclose'], ['preset'], ['close'], ['pshutwr']])]
+            ops += [rng.choice([['write', 7], ['close'], ['write', 3000]]) for _ in range(rng.randint(1, 3))]
+            if rng.random() < 0.6:
+                ops += [['connect'], ['write', 5], ['pdrain']]
         return {'k': 'client', 'poller': kind, 'family': fam, 'ops': ops}
 
     # ---- implementation
@@ -860,8 +915,8 @@ class C12(Prop):
             return [-999]
         if c.get('k', 'server') == 'client':
             evs = [e if e[0] != 3 else [3, bytes(e[1])] for e in obs['seen']]
-            conn, pend, flag = obs['final']
-            return [evs, conn, pend, flag]
+            conn, pend, flag, sopen = obs['final']
+            return [evs, obs['sends'], conn, pend, flag, sopen]
         calls = [[0, x[1]] if x[0] == 'recv' else [1, x[1], x[2]] for x in obs['calls']]
         evs = []
         for e in obs['seen']:
@@ -880,14 +935,37 @@ class C12(Prop):
         if c.get('k', 'server') == 'client':
             return self.oracle_client(c, obs)
         seen, order, nacc = obs['seen'], obs['order'], obs['naccepted']
-        if nacc != len(order):
+        ncloseall = sum(1 for op, ok in zip(c['ops'], obs['applied']) if ok and op[0] == 'closeall')
+        if nacc != len(order) and not (ncloseall and nacc < len(order)):
             return 'harness: %d connections made but %d accepted' % (len(order), nacc)
         per = {s: [] for s in range(nacc)}
         ended = set()
+        nlisdown = nclosed = 0
         for e in seen:
+            if e[0] == 'lisdown':
+                nlisdown += 1
+                if nlisdown > 1:
+                    return 'close(): the listening socket was reported disconnected twice'
+                if nclosed:
+                    return 'close(): closed fired before the listening socket went down'
+                continue
+            if e[0] == 'closed':
+                nclosed += 1
+                continue
             if e[0] == 'snap':
                 t = e[1]
                 clients = set(t[0])
+                if nlisdown:
+                    if t[8]:
+                        return 'close(): the listening socket is still in table(s) %r after close()' % (t[8],)
+                    if nclosed:
+                        pending = {k[0] for k in t[1]}
+                        for k in clients:
+                            if k not in t[3] or k not in pending:
+                                return ('close(): client %d survived close() although nothing is buffered for it / it is not '
+                                        'queued for a deferred close' % k)
+                elif sorted(set(t[8]) - {7}) != [4, 6]:
+                    return 'listening socket registration is %r while the server is open' % (t[8],)
                 names = ('_clients', '_buffers', '_buffers', '_closeq', 'poller._read', 'poller._write',
                          'poller._targets', 'poller._map')
                 for idx in (1, 2, 3, 4, 5, 6, 7):
@@ -923,15 +1001,23 @@ class C12(Prop):
             want = pattern(conn, 0, obs['sent'][s])
             if got != want[:len(got)]:
                 return 'socket %d: read events carry bytes that are not what the peer sent, in order' % s
-            touched = any(op[0] in ('write', 'close', 'preset') and len(op) > 1 and op[1] == conn for op in c['ops'])
+            touched = ncloseall or any(op[0] in ('write', 'close', 'preset') and len(op) > 1 and op[1] == conn for op in c['ops'])
             if not touched and 'e' not in word and got != want:
                 return 'socket %d: peer sent %d bytes and closed in an orderly way, read events carry only %d' % (s, len(want), len(got))
         last = [e for e in seen if e[0] == 'snap'][-1][1]
-        if any(last):
+        if any(last[:8]):
             return 'no-trace: tables not empty after every connection has ended: %r' % (last,)
+        if nclosed != ncloseall or nlisdown != (1 if ncloseall else 0):
+            return 'close(): %d close() requests gave %d closed events and %d disconnects of the listening socket' % (
+                ncloseall, nclosed, nlisdown)
+        if ncloseall and not (obs['sock_none'] and obs['ls_closed']):
+            return 'close(): the listening socket is still open / still referenced by the server after close()'
         return known
 
     def oracle_client(self, c, obs):
+        late = self.oracle_client_state(obs)
+        if late:
+            return late
         if obs['bad_connect']:
             return None           # connect requested while connected: outside the property's precondition
         evs = [e[0] for e in obs['seen'] if e[0] in (0, 1)]
@@ -944,6 +1030,17 @@ class C12(Prop):
                 return 'client: two %s events in a row' % ('connected' if a == 0 else 'disconnected')
         if evs and evs[0] != 0:
             return 'client: disconnected before any connected'
+        return None
+
+    def oracle_client_state(self, obs):
+        """after `disconnected` (socket closed, until a connect makes a new one): not connected, nothing buffered, no
+        deferred close; and the poller never keeps a closed socket — also when writes / closes arrive late"""
+        for i, (conn, nbuf, flag, sopen, dead) in enumerate(obs['snaps']):
+            if dead and not obs['bad_connect']:     # connect while connected registers the socket twice: API misuse
+                return 'client-late: the poller holds %d closed socket object(s) at quiescence (step %d)' % (dead, i)
+            if not sopen and (conn or nbuf or flag):
+                return ('client-late: after disconnected the client keeps state: connected=%s, %d buffered payload(s), '
+                        'close pending=%s (step %d)' % (conn, nbuf, flag, i))
         return None
 
     def finding_class(self, c, obs, what):
